@@ -9,6 +9,9 @@ use oxidd_core::{
 mod segtree;
 use segtree::MinSegTree;
 
+#[cfg(oxidd_verif)]
+mod verif_sync;
+
 /// Reorder the variables according to `order`
 ///
 /// Sequential version of [`set_var_order()`].
@@ -317,8 +320,13 @@ where
         return;
     }
 
-    let state = parking_lot::Mutex::new(state);
-    let cond = parking_lot::Condvar::new(); // task available or done
+    #[cfg(not(oxidd_verif))]
+    use parking_lot::{Condvar, Mutex};
+    #[cfg(oxidd_verif)]
+    use verif_sync::{Condvar, Mutex};
+
+    let state = Mutex::new(state);
+    let cond = Condvar::new(); // task available or done
 
     manager.workers().broadcast(|_| {
         loop {
